@@ -6156,6 +6156,10 @@ class CodegenCtx:
         if state in self.dfa.accepting_states:
             result.add(f"return {self.program_name.upper()}_DONE;")
         else:
+            # the parse has failed for good: leave the machine where every later feed or end call answers FAIL too (the fail
+            # state, or - when nothing leads there and it was removed - an index without a case)
+            failed = self.dfa.states.index(self.generic_fail_state) if self.generic_fail_state in self.dfa.states else len(self.dfa.states)
+            result.add(f"state->state = {failed};")
             result.add(f"return {self.program_name.upper()}_FAIL;")
         return result.value()
     
